@@ -22,7 +22,7 @@ fn spec(t: Tier) -> Spec {
     Spec {
         id: "C06",
         level: "exploration",
-        rule: format!("grid: RLIMIT_STACK {:?} x environment {:?} x argument length {:?} x options {:?}; the number of arguments is derived so that the input is >= 2.5x the kernel's budget for that stack limit (max(stack/4, 128 KiB) capped at 6 MiB), i.e. up to several million one-byte arguments, so every grid point crosses the limit at least twice; the real xargs binary runs the recorder child (count + rolling hash per invocation): exit status must be 0, no 'Argument list too long', and the recorder must have seen every argument exactly once in order with the initial arguments first. -I slice: one input line of 10..200000 bytes among short ones substituted into templates with 1..6 occurrences of {{}}: every invocation accepted by exec with exactly the substituted arguments, or the line refused with exit 1 before anything runs with it. Single-argument slice: one argument of 131071 / 131072 / 200000 / 3000000 bytes among short ones: either everything is delivered, or xargs exits 1 with a diagnostic, never starts the recorder with that argument, and what was delivered is a prefix of the input. {}. evaluation = one grid point; non-trivial = run with >= 2 invocations", STACKS.iter().map(|s| s.0).collect::<Vec<_>>(), ENVS, LENS, OPTS, t.pick("three points with only the SOFT stack limit lowered (the hard limit left alone); quick: 2 stack limits x 2 environments x 4 lengths x 2 options + 5 extra points (-s with 1- and 2-byte arguments, large stack limits)", "thorough: the full grid")),
+        rule: format!("grid: RLIMIT_STACK {:?} x environment {:?} x argument length {:?} x options {:?}; the number of arguments is derived so that the input is >= 2.5x the kernel's budget for that stack limit (max(stack/4, 128 KiB) capped at 6 MiB), i.e. up to several million one-byte arguments, so every grid point crosses the limit at least twice; the real xargs binary runs the recorder child (count + rolling hash per invocation): exit status must be 0, no 'Argument list too long', and the recorder must have seen every argument exactly once in order with the initial arguments first. -I slice: one input line of 10..200000 bytes among short ones substituted into templates with 1..6 occurrences of {{}}: every invocation accepted by exec with exactly the substituted arguments, or the line refused with exit 1 before anything runs with it. Single-argument slice (also under -t, where trace lines share standard error with the diagnostic): one argument of 131071 / 131072 / 200000 / 3000000 bytes among short ones: either everything is delivered, or xargs exits 1 with a diagnostic, never starts the recorder with that argument, and what was delivered is a prefix of the input. {}. evaluation = one grid point; non-trivial = run with >= 2 invocations", STACKS.iter().map(|s| s.0).collect::<Vec<_>>(), ENVS, LENS, OPTS, t.pick("three points with only the SOFT stack limit lowered (the hard limit left alone); quick: 2 stack limits x 2 environments x 4 lengths x 2 options + 5 extra points (-s with 1- and 2-byte arguments, large stack limits)", "thorough: the full grid")),
         bound: json!({"stacks": STACKS.iter().map(|s| s.0).collect::<Vec<_>>(), "envs": ENVS, "lengths": LENS, "options": OPTS, "budgets_crossed": 2.5}),
         assumptions: vec!["Linux execve accounting (strings + pointers against max(stack/4,128KiB) capped at 6 MiB; 128 KiB per string) is what the kernel of this sandbox enforces; it is observed, not modelled: only the derived argument count uses the formula".into()],
         shards: 0,
